@@ -130,6 +130,18 @@ def handler(case):
                 if len(a.get_switches()) == 0 and len(b.get_switches()) == 0:
                     viols.append(("sections.boundary", f"{tag}: sections meet between {a.name} and {b.name} but neither carries a switch"))
         sig.add((len(order), len(n.sections), max(len(l.get_switches()) for l in order)))
+    # ---- across networks: a section holds lines of its own network only, and no line is in sections of two networks
+    owner = {}
+    for n in ps.child_network_list:
+        own = {l.name for l in (getattr(n, "lines", None) or [])} | ({n.connected_line.name} if getattr(n, "connected_line", None) is not None else set())
+        for sct in getattr(n, "sections", None) or []:
+            for l in sct.lines:
+                if l.name not in own:
+                    viols.append(("sections.foreign-line", f"{n.name}: section {[x.name for x in sct.lines]} holds line {l.name}, which belongs to another network"))
+                owner.setdefault(l.name, []).append(n.name)
+    for ln, ns in owner.items():
+        if len(ns) > 1:
+            viols.append(("sections.partition", f"line {ln} belongs to {len(ns)} sections (networks {ns})"))
     # ---- disconnect / reconnect every section on the intact network
     def state():
         return ({l.name: l.connected for l in ps.lines}, {s.name: s.is_open for s in ps.disconnectors + ps.circuitbreakers})
